@@ -121,6 +121,9 @@ def run_case(case):
     lo = gen.arr(cfg["lower"], n, -np.inf)
     hi = gen.arr(cfg["upper"], n, np.inf)
     fstar, xstar, certified = reference(A, b, lo, hi)
+    if not case.get("cfg") and case["i"] % 2 == 1:
+        cfg["args"]["do_logging"] = False      # as most callers run it; nothing in this oracle needs the log
+        st["runs_without_logging"] = 1
     run = gen.run_cfg(cfg, timeout=240)
     oracles.common_stats(run, st)
     if run.timeout:
